@@ -126,6 +126,17 @@ func (e *Env) enterLoop(fr *Frame, st *State, b, prev *ssa.BasicBlock, l *loop) 
 	fr.inLoop[b] = true
 	if fr.depth == 0 {
 		st.loopMark = len(st.calls)
+		// callee names that may be called (any number of times) inside this loop: only for those the call log is
+		// cut at the loop entry; calls of other names are counted over the whole path
+		names := map[string]bool{}
+		for k := range st.loopNames {
+			names[k] = true
+		}
+		seen := map[*ssa.Function]bool{}
+		for blk := range l.blocks {
+			collectCallNames(fr.fn, blk.Instrs, names, seen, 0)
+		}
+		st.loopNames = names
 	}
 	for _, inv := range invs {
 		g := e.evalInvariant(st, fr, ct, inv)
@@ -537,5 +548,45 @@ func (e *Env) applyForKey(fr *Frame, st *State, ct *Contract, fk *ForKey) {
 	}
 	if n != 1 {
 		e.fail("forkey: expected exactly one store iterator in %s, found %d", fr.fn.Name(), n)
+	}
+}
+
+// collectCallNames adds the (last) names of everything called by the instructions, following static teleport
+// callees (they may be inlined).
+func collectCallNames(owner *ssa.Function, instrs []ssa.Instruction, names map[string]bool, seen map[*ssa.Function]bool, depth int) {
+	for _, ins := range instrs {
+		ci, ok := ins.(ssa.CallInstruction)
+		if !ok {
+			continue
+		}
+		c := ci.Common()
+		switch {
+		case c.IsInvoke():
+			names[c.Method.Name()] = true
+		case c.StaticCallee() != nil:
+			f := c.StaticCallee()
+			names[f.Name()] = true
+			if isTeleport(f) && !seen[f] && depth < 8 {
+				seen[f] = true
+				for _, b := range f.Blocks {
+					collectCallNames(f, b.Instrs, names, seen, depth+1)
+				}
+				for _, an := range f.AnonFuncs {
+					for _, b := range an.Blocks {
+						collectCallNames(an, b.Instrs, names, seen, depth+1)
+					}
+				}
+			}
+			if mc, ok := c.Value.(*ssa.MakeClosure); ok {
+				if fn, ok := mc.Fn.(*ssa.Function); ok && !seen[fn] {
+					seen[fn] = true
+					for _, b := range fn.Blocks {
+						collectCallNames(fn, b.Instrs, names, seen, depth+1)
+					}
+				}
+			}
+		default:
+			names[sourceName(owner, c.Value)] = true
+		}
 	}
 }
